@@ -1362,7 +1362,9 @@ theorem rejectCurrent_pres (e4 : Engine) (id : Nat) (resolution : Resolution) (x
   generalize ({ e4r with current := none } : Engine).completeFailure id x.name = z at h5 ⊢
   obtain ⟨e5, r5⟩ := z
   simp only [] at h5 ⊢
-  split <;> exact h5
+  split
+  · exact h5
+  · split <;> exact h5
 
 theorem prepareCurrent_pres (e3 : Engine) (id : Nat) (o : Op) : Pres e3 (e3.prepareCurrent id o).eng := by
   unfold Engine.prepareCurrent
